@@ -100,9 +100,15 @@ func (g *G) Float64() float64 {
 
 var runeClasses = [][2]rune{{0x20, 0x7e}, {0x80, 0x7ff}, {0x800, 0xd7ff}, {0xe000, 0xfffd}, {0x10000, 0x10ffff}}
 
+// U+FFFD is what decoders return for damaged input, but it is also an ordinary character
+var specialRunes = []rune{0xfffd, 0xfffd, 0xfeff, 0, 0x7f, 0x80, 0x85, 0x7ff, 0x800, 0xd7ff, 0xe000, 0xfffe, 0xffff, 0x10000, 0x10ffff}
+
 // Rune of the given width class (0: ASCII .. 4: 4-octet); class <0: mixed.
 func (g *G) Rune(class int) rune {
 	if class < 0 {
+		if g.R.Intn(24) == 0 { // code points that code tends to treat specially
+			return specialRunes[g.R.Intn(len(specialRunes))]
+		}
 		class = g.R.Intn(len(runeClasses))
 	}
 	c := runeClasses[class]
